@@ -737,11 +737,16 @@ def run_c13(ck, ctx):
         for rep in range(2):
             spec = []
             adv = rep == 1      # second rendering: hit bytes that look like control words / padding (0x00, 0xB., 0xA., 0xE., 0xF0, 0xFF)
+            # every fourth case: in the second rendering one lane carries a very long hit list (5000..9000 bytes, several hundred data
+            # words in one frame, spread over pages): what comes behind it (trailer flags, the other chips) must still count
+            big = R.randint(5000, 9000) if (adv and si % 4 == 3) else 0
             for j, i in enumerate(ids):
-                if kind == 'IB': b = G.alp_chip(R, i & 0xF, 9, 30 if adv else 14, flags=flags[j], adv=adv)
-                else: b = b''.join(G.alp_chip(R, c, 9, 8 if adv else 4, flags=flags[j * 7 + c], adv=adv) for c in range(7))
+                mb = big if j == 0 else 0
+                if kind == 'IB': b = G.alp_chip(R, i & 0xF, 9, 30 if adv else 14, flags=flags[j], adv=adv, min_bytes=mb)
+                else: b = b''.join(G.alp_chip(R, c, 9, 8 if adv else 4, flags=flags[j * 7 + c], adv=adv, min_bytes=(mb if c == 0 else 0)) for c in range(7))
                 spec.append((i, b))
-            r = L.run_cli(['check', 'all', 'its-stave'], G.encode(build_frame_stream(R, kind, spec)))
+            if big: ck.count('hits_long_lane')
+            r = L.run_cli(['check', 'all', 'its-stave'], G.encode(build_frame_stream(R, kind, spec, split=(400 if big else None))))
             outs.append((sorted(e[1] for e in r.errors), json.dumps(r.stats['alpide_stats'], sort_keys=True) if r.stats else None))
         ck.case(('hits', si))
         if outs[0] != outs[1]:
